@@ -43,13 +43,19 @@ End Full.
 (* price(): tools.mean returns zeros for no row *)
 Definition price_reported (d : nat) (rows : list (list Q)) : list Q :=
   match rows with [] => repeat 0 d | _ => std_price d rows end.
-(* mc_stddev()**2: no row -> tools.mc_stddev returns the float 0.0 and MCStatistics.mc_stddev raises AttributeError on
-   res.size (None); one row -> the single number 0.0 whatever d; else unbiased variance / n per component *)
+(* mc_stddev()**2 on the REPAIRED tree (/repo 380d7c7, F-C07-6 fixed): no row -> tools.mc_stddev returns zeros(shape[1:]); one row ->
+   tools.stddev returns zeros(shape[1:]); else unbiased variance / n per component: always one number per payoff component *)
 Definition mc_stddev2_reported (d : nat) (rows : list (list Q)) : option (list Q) :=
-  match rows with [] => None | [_] => Some [0] | _ => Some (mc_var_repaired d rows) end.
-(* get_variance(): no row -> np.std of nothing = nan per component (None); one row -> the single number 0.0; else the
+  match rows with [] => Some (repeat 0 d) | [_] => Some (repeat 0 d) | _ => Some (mc_var_repaired d rows) end.
+(* get_variance(): no row -> np.std of nothing = nan per component (None); one row -> 0 per component; else the
    unbiased variance per component *)
 Definition get_variance_reported (d : nat) (rows : list (list Q)) : option (list Q) :=
+  match rows with [] => None | [_] => Some (repeat 0 d) | _ => Some (map var_unbiased (columns d rows)) end.
+(* BEFORE the repair (F-C07-6): no row -> tools.mc_stddev returned the float 0.0 and MCStatistics.mc_stddev raised AttributeError on
+   res.size (None); one row -> the single number 0.0 whatever d.  Kept for the Example C07_error_per_component_before_repair only. *)
+Definition mc_stddev2_reported_orig (d : nat) (rows : list (list Q)) : option (list Q) :=
+  match rows with [] => None | [_] => Some [0] | _ => Some (mc_var_repaired d rows) end.
+Definition get_variance_reported_orig (d : nat) (rows : list (list Q)) : option (list Q) :=
   match rows with [] => None | [_] => Some [0] | _ => Some (map var_unbiased (columns d rows)) end.
 
 (* ------------------------------------------------------------------ vm_compute correspondence *)
@@ -79,3 +85,15 @@ Definition corr_full (tol : Q) (c : full_case) : bool :=
   && Qclose_list tol (price_reported d (st_pay s)) eprice
   && opt_close tol (mc_stddev2_reported d (st_pay s)) evar
   && opt_close tol (get_variance_reported d (st_pay s)) egv.
+
+
+(* the sequence correspondence of Model/McStats.v (corr_seq) with the error as reported by the REPAIRED code: one number per component
+   for every n (McStats.mc_var_reported still has the pre-repair `[0]` for one row; that file is shared and left alone) *)
+Definition corr_stats2 (tol : Q) (d : nat) (rows : list (list Q)) (e : list (list Q) * list Q * list Q) : bool :=
+  let '(erows, eprice, evar) := e in
+  qrows_eqb rows erows && Qclose_list tol (price_reported d rows) eprice && opt_close tol (mc_stddev2_reported d rows) (Some evar).
+Definition corr_seq2 (tol : Q) (cs : list seq_case) : bool :=
+  let mk := fun c : seq_case => let '(ks, pth, df, no, n, _) := c in
+              mkPricing (strike_payoff ks) (tab_path pth) df no n in
+  all2s (fun rows (c : seq_case) => let '(ks, _, _, _, _, e) := c in corr_stats2 tol (length ks) rows e)
+        (price_seq recycling_garb false [] (map mk cs)) cs.
